@@ -142,12 +142,19 @@ pub(crate) mod verif_envelope {
             let dec = EnvelopeEncryption::decrypt_seed(&kms2, &blob);
             vassert!(dec.is_err(), "VERIF:C14:provider-fault-on-unwrap-yields-error");
             core::mem::forget(dec);
-        } else {
+        } else if what == 5 {
             let delta = vany_u8();
             vassume(delta != 0);
             blob[arg] ^= delta;
             let dec = EnvelopeEncryption::decrypt_seed(&kms2, &blob);
             vassert!(dec.is_err(), "VERIF:C14:modified-length-field-is-rejected");
+            core::mem::forget(dec);
+        } else {
+            // wrapped-key length field set to (blob length - arg): the boundary of the length check
+            let v = (BL - arg) as u16;
+            blob[0..2].copy_from_slice(&v.to_le_bytes());
+            let dec = EnvelopeEncryption::decrypt_seed(&kms2, &blob);
+            vassert!(dec.is_err(), "VERIF:C14:length-field-at-the-blob-boundary-is-rejected");
             core::mem::forget(dec);
         }
         vcover!(true, "COVER:envelope-end");
@@ -184,6 +191,14 @@ pub(crate) mod verif_envelope {
     c14!(c14_tamper_p64_w48, 64, 48, 144, 1, 0, Fault::None, 60);
     //@ harness c14_lenfield0_p32_w32 tier=thorough shape="wrapped-length field low byte modified (any value)" required=no
     c14!(c14_lenfield0_p32_w32, 32, 32, 96, 5, 0, Fault::None, 260);
+    //@ harness c14_lenfield_eq_len tier=quick shape="wrapped-length field = blob length (96)"
+    c14!(c14_lenfield_eq_len, 32, 32, 96, 6, 0, Fault::None, 110);
+    //@ harness c14_lenfield_len_minus_1 tier=quick shape="wrapped-length field = blob length - 1"
+    c14!(c14_lenfield_len_minus_1, 32, 32, 96, 6, 1, Fault::None, 110);
+    //@ harness c14_lenfield_len_minus_3 tier=quick shape="wrapped-length field = blob length - 3"
+    c14!(c14_lenfield_len_minus_3, 32, 32, 96, 6, 3, Fault::None, 110);
+    //@ harness c14_lenfield_len_minus_4 tier=quick shape="wrapped-length field = blob length - 4 (wrapped key would fill the rest)"
+    c14!(c14_lenfield_len_minus_4, 32, 32, 96, 6, 4, Fault::None, 110);
     //@ harness c14_lenfield2_p32_w32 tier=quick shape="nonce-length field low byte modified (any value)"
     c14!(c14_lenfield2_p32_w32, 32, 32, 96, 5, 2, Fault::None, 40);
     //@ harness c14_lenfield3_p32_w32 tier=quick shape="nonce-length field high byte modified (any value)"
